@@ -192,15 +192,15 @@ class CorrelationFunction(DFunction, UnitsManaged):
                         
                     elif ftype == "Underdamped":
                         
-                        self._make_underdamped(params, values=values)
+                        self._make_underdamped(prms, values=values)
                         
                     elif ftype == "B777":
                         
-                        self._make_B777(params, values=values)
+                        self._make_B777(prms, values=values)
                         
                     elif ftype == "CP29":
                         
-                        self._make_CP29_spectral_density(params, values=values)
+                        self._make_CP29_spectral_density(prms, values=values)
             
                     elif ftype == "Value-defined":
             
@@ -379,7 +379,7 @@ class CorrelationFunction(DFunction, UnitsManaged):
         temperature = params["T"]
         ctime = params["gamma"]
         
-        # use the units in which params was defined
+        # params are already in internal units
         lamb = params["reorg"]
         time = self.axis #.data
 
@@ -387,11 +387,12 @@ class CorrelationFunction(DFunction, UnitsManaged):
             cfce = values
         else:
             # Make it via SpectralDensity
-            fa = SpectralDensity(time, params)
+            with energy_units("int"):
+                fa = SpectralDensity(time, params)
             
-            cf = fa.get_CorrelationFunction(temperature=temperature)
+                cf = fa.get_CorrelationFunction(temperature=temperature)
             
-            cfce = cf.data
+                cfce = cf.data
 
          # this is a call to the function inherited from DFunction class 
         self._add_me(self.axis, cfce)
@@ -411,20 +412,20 @@ class CorrelationFunction(DFunction, UnitsManaged):
         temperature = params["T"]
         ctime = params["gamma"]
         
-        # use the units in which params was defined
-        lamb = self.manager.iu_energy(params["reorg"],
-                                      units=self.energy_units)
+        # params are already in internal units
+        lamb = params["reorg"]
         time = self.axis #.data
 
         if values is not None:
             cfce = values
         else:
             # Make it via SpectralDensity
-            fa = SpectralDensity(time, params)
+            with energy_units("int"):
+                fa = SpectralDensity(time, params)
             
-            cf = fa.get_CorrelationFunction(temperature=temperature)
+                cf = fa.get_CorrelationFunction(temperature=temperature)
             
-            cfce = cf.data
+                cfce = cf.data
             
         # this is a call to the function inherited from DFunction class 
         self._add_me(self.axis, cfce)
@@ -443,9 +444,8 @@ class CorrelationFunction(DFunction, UnitsManaged):
         ctime = params["gamma"]
         #omega = params["freq"]
         
-        # use the units in which params was defined
-        lamb = self.manager.iu_energy(params["reorg"],
-                                      units=self.energy_units)
+        # params are already in internal units
+        lamb = params["reorg"]
         print('correlation function lamb in int units %f' %lamb)
         time = self.axis #.data
 
@@ -453,12 +453,12 @@ class CorrelationFunction(DFunction, UnitsManaged):
             cfce = values
         else:
             # Make it via SpectralDensity
-            fa = SpectralDensity(time, params)
+            with energy_units("int"):
+                fa = SpectralDensity(time, params)
             
-
-            cf = fa.get_CorrelationFunction(temperature=temperature)
+                cf = fa.get_CorrelationFunction(temperature=temperature)
             
-            cfce = cf.data
+                cfce = cf.data
 
         # this is a call to the function inherited from DFunction class 
         self._add_me(self.axis, cfce)
